@@ -130,7 +130,11 @@ pub fn check_canonical(run: &mut Run, rng: &mut Rng, set: &[MCell], flavour: &st
     run.evaluations += 1;
     let ids: Vec<u64> = present(rng, set);
     let case = || json!({"ids": ids_json(&ids), "flavour": flavour, "n": ids.len()});
-    debug_assert!(is_antichain(set));
+    if !is_antichain(set) {
+        // C10 quantifies over non-overlapping sets only; a generator slip must not turn into an alarm
+        run.count("skipped.generated_set_overlaps");
+        return;
+    }
     let out = match compact(&ids) {
         Ok(v) => v,
         Err(e) => {
@@ -260,7 +264,7 @@ fn run_c08(ctx: &Ctx) -> Run {
         }
         let n = ctx.n(200_000, 6_000_000) / threads as u64;
         for _ in 0..n {
-            let flavour = *rng.pick(&["antichain", "complete", "multiroot", "lowres", "lowres", "overlap", "overlap"]);
+            let flavour = *rng.pick(&["antichain", "complete", "multiroot", "lowres", "lowres", "overlap", "overlap", "lookalike", "lookalike"]);
             let set = gen::cell_set(&mut rng, flavour);
             run.count(&format!("flavour.{flavour}"));
             let a = present(&mut rng, &set);
@@ -285,7 +289,7 @@ fn run_c10(ctx: &Ctx) -> Run {
         }
         let n = ctx.n(200_000, 6_000_000) / threads as u64;
         for _ in 0..n {
-            let flavour = *rng.pick(&["antichain", "complete", "multiroot", "lowres", "lowres"]);
+            let flavour = *rng.pick(&["antichain", "complete", "multiroot", "lowres", "lowres", "lookalike"]);
             let set = gen::cell_set(&mut rng, flavour);
             run.count(&format!("flavour.{flavour}"));
             check_canonical(run, &mut rng, &set, flavour);
